@@ -1,6 +1,6 @@
 """Run the quick check of its own property against every seeded change (scratch copies of /repo).
 
-    python -m pv.seedbatch [--only C09,C12] [--out seeded/batch_result.json]
+    python -m pv.seedbatch [--only C09,C12] [--rounds abc] [--out seeded/batch_result.json]
 
 Prints one line per seed; exit status 1 if some seed is not caught.  Not a registered check.
 """
@@ -21,7 +21,10 @@ def main():
     only = None
     out = ROOT / "seeded" / "batch_result.json"
     args = sys.argv[1:]
+    rounds = None
     for i, a in enumerate(args):
+        if a == "--rounds":
+            rounds = set(args[i + 1])
         if a == "--only":
             only = set(args[i + 1].split(","))
         if a == "--out":
@@ -32,6 +35,8 @@ def main():
             continue
         prop = d.name.split("-")[0]
         if only and prop not in only and d.name not in only:
+            continue
+        if rounds and d.name.split("-")[-1] not in rounds:
             continue
         scratch = tempfile.mkdtemp(prefix="pv_batch_")
         t0 = time.time()
